@@ -40,13 +40,14 @@ def tables(prop, tier, seed, ctx):
 
 STRESS_SCENARIOS = {
     # property -> (quick scenarios, quick seconds for the hammer, thorough scenarios, thorough seconds)
-    "C01": (["late"], 0, ["late", "hammer"], 60),
+    "C01": (["late", "blocking"], 0, ["late", "blocking", "hammer"], 60),
     "C02": ([], 0, ["hammer"], 60),
     "C03": (["askjoin", "hammer", "idlewin", "blocking"], 6, ["askjoin", "hammer", "idlewin", "blocking"], 180),
     "C06": ([], 0, ["hammer"], 60),
     "C08": (["idlewin"], 0, ["idlewin"], 0),
     "C10": (["late", "blocking"], 0, ["late", "blocking"], 0),
     "C11": (["ids", "refs"], 0, ["ids", "refs"], 0),
+    "C13": (["blocking"], 0, ["blocking"], 0),
     "C07": (["refs"], 0, ["refs", "hammer"], 60),
     "C16": (["lazyfut"], 0, ["lazyfut"], 0),
     "C17": (["blocking", "late"], 0, ["blocking", "late", "hammer"], 60),
